@@ -33,8 +33,11 @@ def ulp(x):
 def richardson(f, x, h, order=2):
     """Central-difference derivative of scalar/array-valued f at scalar x with one
     Richardson extrapolation step: error O(h^4)."""
-    d1 = (f(x + h) - f(x - h)) / (2 * h)
-    d2 = (f(x + h / 2) - f(x - h / 2)) / h
+    # use the steps actually taken (x + h is rounded when |x| >> h)
+    a, b = x + h, x - h
+    c, d = x + h / 2, x - h / 2
+    d1 = (f(a) - f(b)) / (a - b)
+    d2 = (f(c) - f(d)) / (c - d)
     return (4 * d2 - d1) / 3
 
 
@@ -65,3 +68,19 @@ def snapshot(arr):
     """Bytes + shape + dtype of an array-like the caller owns."""
     a = np.asarray(arr)
     return (a.shape, str(a.dtype), a.tobytes())
+
+
+def num_grad_stable(f, x, h, rtol=1e-6, shrink=8.0, tries=3):
+    """Self-validating numerical gradient: Richardson estimates at steps h, h/8, h/64...
+    are compared; the first consecutive pair agreeing to `rtol` (relative to the largest
+    component) is accepted.  Returns (gradient, True) or (last estimate, False) when the
+    function has structure below the smallest step tried (case is then not judged)."""
+    prev = num_grad(f, x, h)
+    for _ in range(tries):
+        h = np.asarray(h, dtype=float) / shrink
+        cur = num_grad(f, x, h)
+        scale = max(np.abs(cur).max(), np.abs(prev).max(), 1e-300)
+        if np.abs(cur - prev).max() <= rtol * scale:
+            return cur, True
+        prev = cur
+    return prev, False
